@@ -861,7 +861,7 @@ class Scores:
         return np.abs(trapezoid(y, x))
 
     @staticmethod
-    def _find_root(f, xa, xe, find_first, xtol=1e-10) -> float:
+    def _find_root(f, xa, xe, find_first, xtol=1e-15) -> float:
         """Finds first or last root of a monotone function on interval (xa, xe)."""
         if not (f(xa) <= 0 <= f(xe)):
             raise ValueError(f"f({xa}) <= 0 <= f({xe}) not satisfied.")
